@@ -1,13 +1,24 @@
 #!/bin/bash
-# tools/try_mutant.sh <patch.diff> <ID> [tier]  : apply a seeded change to /repo, run the check, undo.
+# tools/try_mutant.sh <patch.diff> <ID> [tier]
+# Runs check <ID> against a scratch copy of /repo with a seeded change applied. /repo itself is
+# never touched: the harness is built with -modfile pointing its replace directive at the copy,
+# and evidence/replay files go to a scratch VERIF_ROOT. Everything is removed afterwards.
 set -u
-P="$1"; ID="$2"; TIER="${3:-quick}"
-cd /repo || exit 9
-if ! git diff --quiet; then echo "/repo working tree not clean"; exit 9; fi
-if ! git apply "$P"; then echo "PATCH DOES NOT APPLY: $P"; exit 8; fi
+P="$(readlink -f "$1")"; ID="$2"; TIER="${3:-quick}"
+W=$(mktemp -d /tmp/mut.XXXXXX)
+trap 'rm -rf "$W"' EXIT
+mkdir -p "$W/repo" "$W/root/bin"
+rsync -a --exclude .git /repo/ "$W/repo/"
+if ! (cd "$W/repo" && git apply "$P" 2>"$W/apply.err"); then echo "PATCH DOES NOT APPLY: $P"; head -3 "$W/apply.err"; exit 8; fi
 cd /verif
-./run.sh "$ID" "$TIER" > /tmp/mut_$ID.log 2>&1
+sed "s|=> /repo|=> $W/repo|" go.mod > "$W/go.mod"; cp go.sum "$W/go.sum"
+cp known_findings.json "$W/root/"
+export GOFLAGS=-mod=mod GOPROXY=off GOSUMDB=off GOTOOLCHAIN=local CGO_ENABLED=1
+if ! go build -modfile="$W/go.mod" -tags verif -o "$W/root/bin/check" ./cmd/check 2>"$W/build.err"; then echo "$P $ID BUILD FAILED"; head -5 "$W/build.err"; exit 7; fi
+if [ "$ID" = "C19" ]; then go build -race -modfile="$W/go.mod" -tags verif -o "$W/root/bin/check-race" ./cmd/check || exit 7; fi
+VERIF_ROOT="$W/root" "$W/root/bin/check" "$ID" --tier "$TIER" > "$W/out.log" 2>&1
 rc=$?
-git -C /repo checkout -- . 
-grep -c "^VIOLATION" /tmp/mut_$ID.log | sed "s|^|$P $ID rc=$rc violations=|"
-grep "^  signature" /tmp/mut_$ID.log | head -5
+echo "$P $ID rc=$rc violations=$(grep -ac '^VIOLATION' "$W/out.log")"
+grep -a "^  signature" "$W/out.log" | head -5 | cut -c1-300
+if [ $rc -ne 0 ] && [ $rc -ne 1 ]; then grep -aE '^(fatal error:|panic:|INCONCLUSIVE)' "$W/out.log" | head -3; fi
+exit 0
